@@ -35,8 +35,17 @@ inductive Err where
   | other
 deriving DecidableEq
 
-/-- `determine_node_to_get` (tree_node.rs:137-159). -/
+/-- `determine_node_to_get` (tree_node.rs:137-159) as repaired (fix D4): the previous version is
+only returned when it is itself not newer than the target epoch. -/
 def NodeRec.resolve (r : NodeRec) (target : Nat) : Except Err TreeNode :=
+  if r.latest.lastEpoch > target then
+    match r.previous with
+    | some p => if p.lastEpoch > target then .error .notFound else .ok p
+    | none => .error .notFound
+  else .ok r.latest
+
+/-- the pinned commit: `previous` returned without looking at its epoch (defect D4) -/
+def NodeRec.resolveLegacy (r : NodeRec) (target : Nat) : Except Err TreeNode :=
   if r.latest.lastEpoch > target then
     match r.previous with
     | some p => .ok p
